@@ -36,11 +36,14 @@ const (
 	Fifo     = "fifo.Group"
 	Priority = "priority.Group"
 
-	URLFilter    = "url.Filter"
-	HeaderFilter = "header.Filter"
-	QueryFilter  = "querystring.Filter"
-	MethodFilter = "method.Filter"
-	CookieFilter = "cookie.Filter"
+	URLFilter      = "url.Filter"
+	HeaderFilter   = "header.Filter"
+	QueryFilter    = "querystring.Filter"
+	MethodFilter   = "method.Filter"
+	CookieFilter   = "cookie.Filter"
+	PortFilter     = "port.Filter"        // N = port
+	URLRegexFilter = "url.RegexFilter"    // P: regex, matched against the whole request URL on both sides
+	RegexFilter    = "header.RegexFilter" // P: header, regex; tests the request's header on both sides
 
 	HeaderAppend    = "header.Append"
 	HeaderModifier  = "header.Modifier"
@@ -100,7 +103,7 @@ type Node struct {
 func IsGroup(t string) bool { return t == Fifo || t == Priority }
 func IsFilter(t string) bool {
 	switch t {
-	case URLFilter, HeaderFilter, QueryFilter, MethodFilter, CookieFilter:
+	case URLFilter, HeaderFilter, QueryFilter, MethodFilter, CookieFilter, PortFilter, RegexFilter, URLRegexFilter:
 		return true
 	}
 	return false
@@ -226,6 +229,9 @@ func (n *Node) Config() interface{} {
 	case n.T == PortModifier:
 		body["port"] = n.N
 	}
+	if n.T == PortFilter {
+		body["port"] = n.N
+	}
 	if n.HasScope {
 		body["scope"] = append([]string{}, n.Scope...)
 	}
@@ -234,7 +240,12 @@ func (n *Node) Config() interface{} {
 	case FaultUnknownName:
 		name = n.T + "Nope"
 	case FaultScopeInvalid:
-		body["scope"] = []string{"reqest"}
+		// the string that is no kind alone, before and after a supported kind
+		own := "request"
+		if !Supports(n.T, Request) {
+			own = "response"
+		}
+		body["scope"] = [][]string{{"reqest"}, {"result", own}, {own, "reqest"}}[n.FaultAt%3]
 	case FaultScopeUnsupported:
 		own, other := "request", "response"
 		if !Supports(n.T, Request) {
@@ -341,7 +352,9 @@ func (v view) all(name string) ([]string, bool) {
 		}
 		return []string{*v.host}, true
 	case "Content-Length":
-		if *v.cl <= 0 {
+		// A response says -1 when it carries no Content-Length, so its 0 is a
+		// header that is really there; a bodiless request has 0 either way.
+		if *v.cl < 0 || (*v.cl == 0 && v.host != nil) {
 			return nil, false
 		}
 		return []string{strconv.FormatInt(*v.cl, 10)}, true
@@ -556,6 +569,28 @@ func Cond(n *Node, s Side, req *Req, res *Res) bool {
 		return false
 	case MethodFilter:
 		return strings.EqualFold(req.Method, p["method"])
+	case URLRegexFilter:
+		return regexp.MustCompile(p["regex"]).MatchString(req.URLString())
+	case PortFilter: // the explicit port of the request URL, else the default of its scheme
+		port := URLPort(req.Host)
+		if port == "" {
+			switch req.Scheme {
+			case "http":
+				port = "80"
+			case "https":
+				port = "443"
+			}
+		}
+		return port == strconv.Itoa(n.N)
+	case RegexFilter: // "iff the value of request header matches regex" - on both sides
+		re := regexp.MustCompile(p["regex"])
+		vs, _ := reqView(req).all(p["header"])
+		for _, x := range vs {
+			if re.MatchString(x) {
+				return true
+			}
+		}
+		return false
 	case CookieFilter:
 		var cs []*http.Cookie
 		if s == Request {
@@ -571,6 +606,21 @@ func Cond(n *Node, s Side, req *Req, res *Res) bool {
 		return false
 	}
 	panic("treeref: not a filter: " + n.T)
+}
+
+// URLPort is the explicit port of a URL authority ("" if none); an IPv6
+// literal is bracketed.
+func URLPort(host string) string {
+	if strings.HasPrefix(host, "[") {
+		if i := strings.Index(host, "]"); i >= 0 && strings.HasPrefix(host[i+1:], ":") {
+			return host[i+2:]
+		}
+		return ""
+	}
+	if i := strings.LastIndex(host, ":"); i >= 0 {
+		return host[i+1:]
+	}
+	return ""
 }
 
 // HostMatch: equality, where a "*" label of the pattern matches exactly one
